@@ -59,6 +59,10 @@ def families(tier):
                                      'mut_paths': ['o', 'o/d', 'o/d/z'], 'mut_kinds': ['none', 'rmtree', 'delete', 'mkdir']}, 'weight': 2})
     q.append({'name': 'A10', 'params': {'hist': 'BMB', 'kinds': ['is_dir', 'list_dir'], 'mut_paths': ['o/d/g', 'o/d', 'o/f'],
                                      'mut_kinds': ['none', 'delete', 'rmtree', 'write']}, 'weight': 1})
+    # two outputs of one reused function, recorded under either comparison mode, tampered with / deleted between the builds
+    q.append({'name': 'B9', 'params': {'hist': 'BMB', 'universe': ['o', 'o/d'], 'kinds': ['is_dir'], 't1s': ['o/d/g', 'o/d/p/x'], 't2s': ['o/d/h', 'o/x'],
+                                    'bf_modes': ['ok'], 'cmp': ['METADATA', 'HASH'], 'mut_paths': ['o/d/g', 'o/d/p/x', 'o/d/h', 'o/x'],
+                                    'mut_kinds': ['write', 'delete']}, 'weight': 1})
     q.append({'name': 'V1', 'params': {'hist': 'BBB', 'universe': ['o', 'o/d', 'o/d/g']}, 'weight': 1})
     q.append({'name': 'P2', 'params': {'hist': 'BBB', 'universe': ['o', 'o/d', 'o/dx']}, 'weight': 1})
     q.append({'name': 'A8b', 'params': {'hist': 'BMB', 'kinds': ['is_dir', 'list_dir'], 'mut_paths': ['o/d/z', 'o/d/e/z', 'o/d/e']}, 'weight': 1})
